@@ -36,7 +36,7 @@ package cache
 //@   ensures !contains(m.sharedCaches, name)
 
 //@ func (*Transaction).With
-//@   property C11 C07
+//@   property C11 C07 C08
 //@   requires t.manager != nil && unheld(t.mu) && unheld(t.manager.mu)
 //@   callback createFn ensures true
 //@   callback f ensures true
@@ -70,7 +70,7 @@ package cache
 //@   ensures result.writtenCaches != nil && fresh(result.writtenCaches) && forallv(k string, !contains(result.writtenCaches, k))
 
 //@ func (*Transaction).Commit
-//@   property C11 C07
+//@   property C11 C07 C08
 //@   modifies t.manager.sharedCaches, field(sharedCacheElem.scrapped), locks(sharedCacheElem.mu)
 //@   requires t.manager != nil && unheld(t.mu) && unheld(t.manager.mu) && t.writtenCaches != t.manager.sharedCaches
 //@   requires forallv(k string, contains(t.writtenCaches, k) ==> t.writtenCaches[k] != nil && heldW(t.writtenCaches[k].mu))
@@ -93,7 +93,7 @@ package cache
 // the instance's type arguments).
 //@ func (*ItemCache).Put
 //@   allocates
-//@   property C04 C08
+//@   property C04 C08 C03 C05 C10
 //@   requires unheld(ic.itemsMu) && ic.items != nil
 //@   modifies ic.items
 //@   ensures unheld(ic.itemsMu)
@@ -104,7 +104,7 @@ package cache
 // returned; a failed one leaves the map alone.
 //@ func (*ItemCache).read
 //@   allocates
-//@   property C04 C08
+//@   property C04 C08 C03 C05 C10
 //@   requires ic.items != nil
 //@   modifies ic.items
 //@   ensures result1 == nil ==> contains(ic.items, id) && ic.items[id] != nil && ic.items[id].value == result0 && !ic.items[id].IsDirty && !ic.items[id].IsDeleted
@@ -116,7 +116,7 @@ package cache
 // Get: a cached entry wins over the bucket (a tombstone means not found); otherwise read-through.
 //@ func (*ItemCache).Get
 //@   allocates
-//@   property C04 C08
+//@   property C04 C08 C03 C05 C10
 //@   requires unheld(ic.itemsMu) && ic.items != nil
 //@   requires forallv(k K, contains(ic.items, k) ==> ic.items[k] != nil)
 //@   modifies ic.items
@@ -132,7 +132,7 @@ package cache
 // Delete: every requested id that is cached or found in the bucket ends up as a tombstone.
 //@ func (*ItemCache).Delete
 //@   allocates
-//@   property C04 C08
+//@   property C04 C08 C03 C05 C10
 //@   requires unheld(ic.itemsMu) && ic.items != nil
 //@   requires forallv(k K, contains(ic.items, k) ==> ic.items[k] != nil)
 //@   modifies ic.items, field(itemCacheElem.IsDeleted)
@@ -174,7 +174,7 @@ package cache
 // is read through; what is cached already is never replaced (the cache wins over the bucket).
 //@ func (*ItemCache).ForEach$1
 //@   allocates
-//@   property C04 C08
+//@   property C04 C08 C03 C05 C10
 //@   invariant ic.items != nil
 //@   invariant forallv(k K, contains(ic.items, k) ==> ic.items[k] != nil)
 //@   modifies ic.items
@@ -186,7 +186,7 @@ package cache
 // that is not a tombstone, with its cached value, and no tombstone; after a complete run
 // everything the bucket holds has been merged into the cache.
 //@ func (*ItemCache).ForEach
-//@   property C04 C08
+//@   property C04 C08 C03 C05 C10
 //@   requires unheld(ic.itemsMu) && ic.items != nil
 //@   requires forallv(k K, contains(ic.items, k) ==> ic.items[k] != nil)
 //@   callback fn requires contains(ic.items, arg0) && !ic.items[arg0].IsDeleted && arg1 == ic.items[arg0].value
@@ -205,7 +205,7 @@ package cache
 // cache's current bucket) and dropped from the map, every dirty entry has been written (WriteTo)
 // and marked clean; entries that were clean are not written and never change.
 //@ func (*ItemCache).Flush
-//@   property C08
+//@   property C08 C03 C05 C10
 //@   requires unheld(ic.itemsMu) && ic.items != nil
 //@   requires forallv(k K, contains(ic.items, k) ==> ic.items[k] != nil)
 //@   requires forallv(a K, forallv(b K, a != b && contains(ic.items, a) && contains(ic.items, b) ==> ic.items[a] != ic.items[b]))
@@ -239,7 +239,7 @@ package cache
 // not know are skipped; the cache keeps its representation invariant.
 //@ func (*ItemCache).GetMany
 //@   allocates
-//@   property C04 C08
+//@   property C04 C08 C03 C05 C10
 //@   safety -overflow -makelen
 //@   requires unheld(ic.itemsMu) && ic.items != nil
 //@   requires forallv(k K, contains(ic.items, k) ==> ic.items[k] != nil)
